@@ -29,9 +29,10 @@ def mk_universe(keys):
     i = 0
     for kd in UNIVERSE:
         if kd == "E":
-            u.append(M.Entry("article", keys[i], [M.Field("t", "v" + str(i))], i, "r" + str(i)))
+            # u0 has no fields, u2 an empty value: "empty" content must not make a held block count as absent
+            u.append(M.Entry("article", keys[i], [M.Field("t", "v" + str(i))] if i > 0 else [], i, "r" + str(i)))
         elif kd == "S":
-            u.append(M.String(keys[i], "v" + str(i), i, "r" + str(i)))
+            u.append(M.String(keys[i], ("v" + str(i)) if i > 2 else "", i, "r" + str(i)))
         elif kd == "P":
             u.append(M.Preamble("p", i, "r" + str(i)))
         elif kd == "X":
